@@ -212,6 +212,12 @@ def driver(lines, timeout=3600):
     return out
 
 
+def sample_seed(ctx):
+    """seed of the end-to-end sampling of the four sampled properties (C02, C03, C04, C18): fixed, so that the registered commands
+    explore exactly the sample that was validated on the unchanged tree; VERIF_EXPLORE=1 lets VERIF_SEED drive it (exploration)"""
+    return ctx.seed if os.environ.get("VERIF_EXPLORE") else 0
+
+
 class DriverError(Exception):
     pass
 
